@@ -262,7 +262,7 @@ func VH_C15F() {
 			h.Enabled(context.Background(), logslog.LevelInfo) == hs[0].Enabled(context.Background(), logslog.LevelInfo),
 			"C15: a derived handler keeps the level")
 		r := logslog.NewRecord(vTime0(), logslog.LevelInfo, "m", 0)
-		r.AddAttrs(logslog.Int64("r", 1))
+		r.AddAttrs(logslog.Int64("r", 1), logslog.Int64("a", 99)) // "a" collides with what the first derivation step bound
 		n0 := len(rec.evs)
 		_ = h.Handle(context.Background(), r)
 		vAssert(len(rec.evs) == n0+1, "C15: a derived handler keeps the destination and emits the record once")
@@ -270,7 +270,7 @@ func VH_C15F() {
 			continue
 		}
 		got := rec.evs[n0]
-		want := append(append(Attrs(nil), paths[i]...), Int64("r", 1))
+		want := append(append(Attrs(nil), paths[i]...), Int64("r", 1), Int64("a", 99)) // the record's own attribute wins over a bound one
 		lg.WriteThru(context.Background(), InfoLevel, vTime0(), 0, "m", want)
 		ref := rec.evs[len(rec.evs)-1]
 		vAssert(got.W == ref.W, "C15: a derived handler keeps the destination")
